@@ -1,6 +1,312 @@
-//! C11 harness commands (stub).
-use std::io::Write;
+//! C11: runs the real `load::Loader` on a file tree materialised BOTH as a `FakeFileSystem` map and as a real
+//! directory (`ProdFileSystem`), records the `(path, entry)` callback sequence, every `glob` call, and the reports.
+//!
+//! `hx c11 load` — case line:
+//!   `<id> root=<enc abs path> [whole=<enc abs path>=<enc text>] [bin=1] [keep=1] [d:<enc abs dir>]... <enc abs path>=<enc bytes>...`
+//! every path must lie under `/verif/work/C11/fs/`; the directory of the case (`/verif/work/C11/fs/<component>`) is
+//! created before and removed after the case.
+//! output line:
+//!   `<id> files=((<path> ok|perr|bin <entries>...)...) dirs=(<path>...) root=<path> fake=<res> prod=<res> gfake=(<glob>...) gprod=(<glob>...)
+//!        whole=<res> rfake=<report> rprod=<report> rwhole=<report> afake=<accounts> aprod=<accounts> awhole=<accounts>
+//!        bin=<flatten-equal>,<balance-equal>,<rc-split>,<rc-whole>|-`
+//!   res    = `(ok (<path> <entry>)...)` | `(err <Kind> (<path> <entry>)...)` | `(panic <msg>)`
+//!   glob   = `(<pattern> ok <path>...)` | `(<pattern> err <Kind>)`
+use std::borrow::Cow;
+use std::cell::RefCell;
+use std::collections::HashMap;
+use std::io::{BufRead, Write};
+use std::path::{Path, PathBuf};
+use std::rc::Rc;
 
-pub fn run(_args: &[String], _out: &mut dyn Write) -> i32 {
+use bumpalo::Bump;
+use okane_core::load::{self, FileSystem, LoadError};
+use okane_core::report::{self, query, ReportContext};
+use okane_core::syntax;
+
+use crate::proc;
+use crate::sx::{self, enc};
+use crate::tree;
+
+const BASE: &str = "/verif/work/C11/fs/";
+
+type GlobLog = Rc<RefCell<Vec<(String, Result<Vec<PathBuf>, String>)>>>;
+
+/// a `FileSystem` that delegates and records every `glob` call.
+struct Rec<F: FileSystem> {
+    inner: F,
+    log: GlobLog,
+}
+
+impl<F: FileSystem> FileSystem for Rec<F> {
+    fn canonicalize_path<'a>(&self, path: &'a Path) -> Cow<'a, Path> {
+        self.inner.canonicalize_path(path)
+    }
+    fn file_content_utf8<P: AsRef<Path>>(&self, path: P) -> Result<String, std::io::Error> {
+        self.inner.file_content_utf8(path)
+    }
+    fn glob(&self, pattern: &str) -> Result<Vec<PathBuf>, LoadError> {
+        let r = self.inner.glob(pattern);
+        let rec = match &r {
+            Ok(ps) => Ok(ps.clone()),
+            Err(e) => Err(err_kind(e)),
+        };
+        self.log.borrow_mut().push((pattern.to_string(), rec));
+        r
+    }
+}
+
+pub fn err_kind(e: &LoadError) -> String {
+    match e {
+        LoadError::IO(ioe, _) => format!("IO:{:?}", ioe.kind()),
+        other => proc::load_err_kind(other),
+    }
+}
+
+fn fake_fs(files: &[(String, Vec<u8>)]) -> load::FakeFileSystem {
+    let mut m: HashMap<PathBuf, Vec<u8>> = HashMap::new();
+    for (p, c) in files {
+        m.insert(PathBuf::from(p), c.clone());
+    }
+    load::FakeFileSystem::from(m)
+}
+
+/// the callback sequence and the outcome of `Loader::load`.
+fn run_load<F: FileSystem>(root: &str, fs: F) -> (String, String) {
+    let log: GlobLog = Rc::new(RefCell::new(Vec::new()));
+    let loader = load::Loader::new(PathBuf::from(root), Rec { inner: fs, log: log.clone() })
+        .with_error_renderer(annotate_snippets::Renderer::plain());
+    let delivered: RefCell<Vec<String>> = RefCell::new(Vec::new());
+    let r = sx::catch(std::panic::AssertUnwindSafe(|| {
+        loader.load(|path, _pctx, entry: &syntax::plain::LedgerEntry| {
+            delivered.borrow_mut().push(format!("({} {})", enc(&path.display().to_string()), tree::entry(entry)));
+            Ok::<(), LoadError>(())
+        })
+    }));
+    let d = delivered.borrow().join(" ");
+    let res = match r {
+        Err(msg) => format!("(panic {})", enc(&msg)),
+        Ok(Ok(())) => format!("(ok {})", d),
+        Ok(Err(e)) => format!("(err {} {})", err_kind(&e), d),
+    };
+    let globs: Vec<String> = log
+        .borrow()
+        .iter()
+        .map(|(pat, r)| match r {
+            Ok(ps) => {
+                let mut v: Vec<String> = ps.iter().map(|p| enc(&p.display().to_string())).collect();
+                v.sort();
+                format!("({} ok {})", enc(pat), v.join(" "))
+            }
+            Err(k) => format!("({} err {})", enc(pat), k),
+        })
+        .collect();
+    (res, format!("({})", globs.join(" ")))
+}
+
+/// `report::process` + balance + register + `report::accounts`, canonical text; errors by kind only (the position of
+/// an entry differs between a split and an unsplit ledger by construction).
+fn run_reports<F: FileSystem + 'static>(root: &str, mk: impl Fn() -> F + std::panic::UnwindSafe) -> (String, String) {
+    let root = root.to_string();
+    let r = sx::catch(move || {
+        let arena = Bump::new();
+        let mut ctx = ReportContext::new(&arena);
+        let loader = load::Loader::new(PathBuf::from(&root), mk()).with_error_renderer(annotate_snippets::Renderer::plain());
+        let rep = match report::process(&mut ctx, loader, &report::ProcessOptions::default()) {
+            Ok(mut ledger) => {
+                let txns: Vec<String> = ledger.transactions().map(proc::txn_sx).collect();
+                let reg: Vec<String> = ledger
+                    .postings(&ctx, &query::PostingQuery { account: None })
+                    .iter()
+                    .map(|p| format!("({} {})", enc(p.account.as_str()), proc::amount_sx(&p.amount)))
+                    .collect();
+                let bal = ledger
+                    .balance(&ctx, &query::BalanceQuery::default())
+                    .map(|b| proc::balance_sx(b.into_owned()))
+                    .unwrap_or_else(|e| format!("(queryerr {})", enc(&e.to_string())));
+                format!("(ok (txns {}) (bal {}) (reg {}))", txns.join(" "), bal, reg.join(" "))
+            }
+            Err(report::ReportError::BookKeep(be, _)) => format!("(err {})", proc::bk_err_sx(&format!("{:?}", be), &[])),
+            Err(report::ReportError::Load(le)) => format!("(loaderr {})", err_kind(&le)),
+            Err(report::ReportError::PriceDB(_)) => "(pricedberr)".to_string(),
+        };
+        let arena2 = Bump::new();
+        let mut ctx2 = ReportContext::new(&arena2);
+        let loader2 = load::Loader::new(PathBuf::from(&root), mk());
+        let acc = match report::accounts(&mut ctx2, loader2) {
+            Ok(v) => format!("(ok {})", v.iter().map(|a| enc(a.as_str())).collect::<Vec<_>>().join(" ")),
+            Err(e) => format!("(loaderr {})", err_kind(&e)),
+        };
+        (rep, acc)
+    });
+    match r {
+        Ok(x) => x,
+        Err(msg) => (format!("(panic {})", enc(&msg)), "(panic)".to_string()),
+    }
+}
+
+fn parse_file(bytes: &[u8]) -> String {
+    let text = match std::str::from_utf8(bytes) {
+        Ok(t) => t,
+        Err(_) => return "bin".to_string(),
+    };
+    let opts = okane_core::parse::ParseOptions::default();
+    let mut out = Vec::new();
+    let mut status = "ok";
+    for r in okane_core::parse::parse_ledger::<syntax::plain::Ident>(&opts, text) {
+        match r {
+            Ok((_ctx, e)) => out.push(tree::entry(&e)),
+            Err(_) => {
+                status = "perr";
+                break;
+            }
+        }
+    }
+    format!("{} {}", status, out.join(" "))
+}
+
+fn case_dir(root: &str) -> Option<PathBuf> {
+    let rest = root.strip_prefix(BASE)?;
+    let first = rest.split('/').next()?;
+    if first.is_empty() || first == "." || first == ".." {
+        return None;
+    }
+    Some(PathBuf::from(format!("{}{}", BASE, first)))
+}
+
+fn run_bin(args: &[&str]) -> (i32, String) {
+    let exe = std::env::current_exe().ok().and_then(|p| p.parent().map(|d| d.join("okane")));
+    let exe = match exe {
+        Some(e) => e,
+        None => return (-2, String::new()),
+    };
+    match std::process::Command::new(exe).args(args).env("NO_COLOR", "1").output() {
+        Ok(o) => (o.status.code().unwrap_or(-1), String::from_utf8_lossy(&o.stdout).to_string()),
+        Err(_) => (-2, String::new()),
+    }
+}
+
+pub fn run(args: &[String], out: &mut dyn Write) -> i32 {
+    if args.first().map(|s| s.as_str()) != Some("load") {
+        eprintln!("usage: hx c11 load");
+        return 2;
+    }
+    let stdin = std::io::stdin();
+    for line in stdin.lock().lines() {
+        let line = line.unwrap();
+        let ws: Vec<&str> = line.split(' ').filter(|w| !w.is_empty()).collect();
+        if ws.len() < 2 {
+            writeln!(out, "bad-case").unwrap();
+            continue;
+        }
+        let id = ws[0];
+        let mut root = String::new();
+        let mut whole: Option<(String, String)> = None;
+        let mut bin = false;
+        let mut keep = false;
+        let mut dirs: Vec<String> = Vec::new();
+        let mut files: Vec<(String, Vec<u8>)> = Vec::new();
+        for w in &ws[1..] {
+            if let Some(v) = w.strip_prefix("root=") {
+                root = sx::dec(v).unwrap_or_default();
+            } else if let Some(v) = w.strip_prefix("whole=") {
+                if let Some((p, t)) = v.split_once('=') {
+                    whole = Some((sx::dec(p).unwrap_or_default(), sx::dec(t).unwrap_or_default()));
+                }
+            } else if *w == "bin=1" {
+                bin = true;
+            } else if *w == "keep=1" {
+                keep = true;
+            } else if let Some(v) = w.strip_prefix("d:") {
+                dirs.push(sx::dec(v).unwrap_or_default());
+            } else if let Some((k, v)) = w.split_once('=') {
+                files.push((sx::dec(k).unwrap_or_default(), sx::dec_bytes(v).unwrap_or_default()));
+            }
+        }
+        let cdir = match case_dir(&root) {
+            Some(d) => d,
+            None => {
+                writeln!(out, "{} bad-case root outside {}", id, BASE).unwrap();
+                continue;
+            }
+        };
+        let inside = |p: &str| Path::new(p).starts_with(&cdir) && !p.contains("/../") && !p.ends_with("/..");
+        if !files.iter().all(|(p, _)| inside(p)) || !dirs.iter().all(|d| inside(d)) || whole.as_ref().map_or(false, |(p, _)| !inside(p)) {
+            writeln!(out, "{} bad-case path outside the case directory", id).unwrap();
+            continue;
+        }
+        // materialise the real directory
+        let _ = std::fs::remove_dir_all(&cdir);
+        std::fs::create_dir_all(&cdir).unwrap();
+        for d in &dirs {
+            std::fs::create_dir_all(d).unwrap();
+        }
+        for (p, c) in &files {
+            if let Some(parent) = Path::new(p).parent() {
+                std::fs::create_dir_all(parent).unwrap();
+            }
+            std::fs::write(p, c).unwrap();
+        }
+        if let Some((p, t)) = &whole {
+            if let Some(parent) = Path::new(p).parent() {
+                std::fs::create_dir_all(parent).unwrap();
+            }
+            std::fs::write(p, t).unwrap();
+        }
+        let files_sx: Vec<String> = files.iter().map(|(p, c)| format!("({} {})", enc(p), parse_file(c))).collect();
+        let (fake, gfake) = run_load(&root, fake_fs(&files));
+        let (prod, gprod) = run_load(&root, load::ProdFileSystem);
+        let f2 = files.clone();
+        let (rfake, afake) = run_reports(&root, move || fake_fs(&f2));
+        let (rprod, aprod) = run_reports(&root, || load::ProdFileSystem);
+        let (whole_res, rwhole, awhole, binres) = match &whole {
+            None => ("-".to_string(), "-".to_string(), "-".to_string(), "-".to_string()),
+            Some((wp, wt)) => {
+                let wf = vec![(wp.clone(), wt.as_bytes().to_vec())];
+                let (w, _) = run_load(wp, fake_fs(&wf));
+                let wf2 = wf.clone();
+                let (rw, aw) = run_reports(wp, move || fake_fs(&wf2));
+                let b = if bin {
+                    let (rc1, o1) = run_bin(&["primitive", "flatten", &root]);
+                    let (rc2, o2) = run_bin(&["primitive", "flatten", wp]);
+                    let (rc3, o3) = run_bin(&["balance", &root]);
+                    let (rc4, o4) = run_bin(&["balance", wp]);
+                    format!(
+                        "{},{},{},{}",
+                        (o1 == o2 && rc1 == rc2) as u8,
+                        (o3 == o4 && rc3 == rc4) as u8,
+                        rc1,
+                        rc2
+                    )
+                } else {
+                    "-".to_string()
+                };
+                (w, rw, aw, b)
+            }
+        };
+        writeln!(
+            out,
+            "{} files=({}) dirs=({}) root={} fake={} prod={} gfake={} gprod={} whole={} rfake={} rprod={} rwhole={} afake={} aprod={} awhole={} bin={}",
+            id,
+            files_sx.join(" "),
+            dirs.iter().map(|d| enc(d)).collect::<Vec<_>>().join(" "),
+            enc(&root),
+            fake,
+            prod,
+            gfake,
+            gprod,
+            whole_res,
+            rfake,
+            rprod,
+            rwhole,
+            afake,
+            aprod,
+            awhole,
+            binres
+        )
+        .unwrap();
+        if !keep {
+            let _ = std::fs::remove_dir_all(&cdir);
+        }
+    }
     0
 }
